@@ -171,6 +171,8 @@ Arguments RM {cl} l.
 Arguments RC {cl} l.
 Arguments rm {ctl} r.
 Arguments rc {ctl} r.
+Arguments rtokA {ctl} r.
+Arguments rtokB {ctl} r.
 
 (* the reference subscriber of the correspondence runs: registered and read before anything else *)
 Definition with_ref {ctl} (c0 : ctl) : rstate ctl :=
@@ -412,9 +414,12 @@ Definition http_step (c : hctl) (l : hcl) (cur : st) : option (option op * (bool
     | HPSelect => if h_stop c then ret None (fun _ => h_set_run c HPDown0) else None
     | _ => None
     end
-  | HSelSrv =>
+  | HSelSrv =>         (* case err := <-serverErrors: an injected failure of the running server, or the
+                          ListenAndServe error of the server a Reload is booting (Run's select and the
+                          reload's readiness probe both receive from serverErrors) *)
     match h_run c with
-    | HPSelect => if h_srv c then ret None (fun _ => h_set_run c HPErrT) else None
+    | HPSelect => if h_srv c || (match h_rl c with HRRestart => true | _ => false end)
+                  then ret None (fun _ => h_set_run c HPErrT) else None
     | _ => None
     end
   | HTStopping =>      (* shutdown: Transition(Stopping), failure only logged *)
